@@ -215,6 +215,8 @@ class Ctx:
             print("KNOWN-FINDING: property=%s %s: %s (%d cases in this run)" % (self.prop, key, hit["what"], hit["count"]))
         for key, d in self.drift.items():
             print("MODEL-DRIFT property=%s %s cases=%d" % (self.prop, key, d["count"]))
+            if d.get("example") is not None:
+                print("  first drift case: %s" % json.dumps(_jsonable(d["example"]))[:700])
         cov = {
             "states": self.states, "transitions": self.transitions,
             "traces_validated_against_impl": self.traces_validated,
